@@ -706,3 +706,32 @@ Definition faithful_b (S : spec) (s : st) (n : str) : bool :=
   | Some e, Some d => (flags_of e =? 0) && list_eqb field_eqb d (fields_of e)
   | _, _ => false
   end.
+
+(* ------------------------------------------------------------------ the fragment C02_partial is proved for (executable):
+   properties are $refs, primitives or arrays of ($ref | primitive | enum); top-level schemas are such objects, allOf
+   over ($ref | such object), primitives, enums or arrays of ($ref | primitive | enum); declared names are unique,
+   non-empty, fixed by [cls], and no property key is a declared name.  No inline objects => no synthetic names. *)
+Definition core_item (x : node) : bool := match x with Ref _ | Prim _ | EnumN => true | _ => false end.
+Definition core_prop (x : node) : bool :=
+  match x with Ref _ | Prim _ => true | Arr y => core_item y | _ => false end.
+Definition core_obj (x : node) : bool :=
+  match x with Obj ps _ => forallb (fun kv => core_prop (snd kv)) ps | _ => false end.
+Definition core_member (x : node) : bool := is_ref x || core_obj x.
+Definition core_top (x : node) : bool :=
+  match x with
+  | Obj _ _ => core_obj x
+  | AllOf l => forallb core_member l
+  | Prim _ | EnumN => true
+  | Arr y => core_item y
+  | _ => false
+  end.
+Fixpoint prop_keys (x : node) : list str :=
+  match x with
+  | Obj ps _ => map fst ps
+  | AllOf l => (fix go l := match l with [] => [] | y :: r => prop_keys y ++ go r end) l
+  | _ => []
+  end.
+Definition core_spec (S : spec) : bool :=
+  forallb (fun p => core_top (snd p) && str_eqb (cls (fst p)) (fst p) && nonempty (fst p)
+                    && forallb (fun k => negb (mem_str k (map fst S))) (prop_keys (snd p))) S
+  && nodup_strs (map fst S).
